@@ -64,7 +64,13 @@ def gen_base(rng, tier, index):
             call["durations"] = {"mode": dm, "t": rng.choice([0.01, 0.03, 0.06]),
                                  "chunk": rng.choice([0, 0, nchunks - 1, nchunks // 2]), "phase": rng.randrange(2),
                                  "nchunks": nchunks}
-        if index % 4 == 1 and n:
+        if index % 5 == 3 and n:
+            call["twins"] = True                    # 1 / 1.0 style inputs: equal, same hash, different for f
+            call.pop("durations", None)
+        elif index % 5 == 4 and n:
+            call["exc_results"] = True              # f returns exception objects as ordinary values
+            call.pop("durations", None)
+        if index % 4 == 1 and n and not (call.get("twins") or call.get("exc_results")):
             # results larger than a pipe buffer (64 KiB): workers cannot finish before somebody reads
             call["result_size"] = rng.choice([70_000, 200_000])
             call["n"] = min(n, 8)
